@@ -111,16 +111,18 @@ RETCODE adfCreateFlop ( struct AdfDevice * const dev,
         (*adfEnv.eFct)("adfCreateFlop : volName == NULL");
         return RC_ERROR;
     }
-    dev->volList = (struct AdfVolume **) malloc (sizeof(struct AdfVolume *));
-    if (!dev->volList) { 
+    /* the device keeps its volume list until the new volume exists */
+    struct AdfVolume ** const volList = (struct AdfVolume **) malloc (sizeof(struct AdfVolume *));
+    if ( ! volList ) {
         (*adfEnv.eFct)("adfCreateFlop : malloc");
         return RC_ERROR;
     }
-    dev->volList[0] = adfCreateVol( dev, 0L, 80L, volName, volType );
-    if (dev->volList[0]==NULL) {
-        free(dev->volList);
+    volList[0] = adfCreateVol( dev, 0L, 80L, volName, volType );
+    if ( volList[0] == NULL ) {
+        free ( volList );
         return RC_ERROR;
     }
+    dev->volList = volList;
     dev->nVol = 1;
     dev->volList[0]->blockSize = 512;
     if (dev->sectors==11)
